@@ -18,7 +18,7 @@ Added after refactoring round 3 (DESIGN.md 6.9):
  loop normal form  enumerate()/zip() sample loops are analysed in their index form (sa/desugar.py); the representation context follows hoisted and negated tests.
 """
 import ast
-LINT_EXTRA_FILES = ("ahrs/common/orientation.py",)      # acc2q / am2q / ecompass helpers the filters start from
+LINT_EXTRA_FILES = ("ahrs/common/orientation.py", "ahrs/utils/core.py")      # acc2q / am2q / ecompass helpers the filters start from; the shared input validators
 import numpy as np
 from sa import poly as P
 from sa.facts import Facts
